@@ -19,4 +19,8 @@ extern int verif_file_obj;
 extern unsigned char verif_sink[VERIF_PAYLOAD_MAX];
 extern int verif_sink_len, verif_wsched[VERIF_SCHED_MAX], verif_wsched_n, verif_write_calls;
 #define VERIF_FP ((FILE *) (void *) &verif_file_obj)
+/* a second stream (an %included file): its own payload */
+extern unsigned char verif_payload2[VERIF_PAYLOAD_MAX];
+extern int verif_payload2_len, verif_payload2_pos, verif_file_obj2;
+#define VERIF_FP2 ((FILE *) (void *) &verif_file_obj2)
 #endif
